@@ -1,7 +1,10 @@
 package c12
 
 import (
+	"net/http"
+	"net/url"
 	"strconv"
+	"strings"
 
 	"verif/harness/internal/core"
 )
@@ -76,9 +79,9 @@ func (g *genState) tree(depth int) *node {
 		}
 		return n
 	default:
-		n := &node{kind: 'C', cond: r.Intn(len(condPool)), scope: groupScopes[r.Intn(len(groupScopes))]}
+		n := &node{kind: 'C', cond: genCond(r), scope: groupScopes[r.Intn(len(groupScopes))]}
 		n.kids = []*node{g.tree(depth + 1)}
-		if r.Bool() {
+		if r.Bool() && n.cond.kind != 'p' {
 			n.els = g.tree(depth + 1)
 		}
 		return n
@@ -136,14 +139,212 @@ func defect(r *core.Rand, root *node) *node {
 	return root
 }
 
-func genMsg(r *core.Rand) *msgSpec {
-	return &msgSpec{r.Intn(len(methods)), r.Intn(len(schemes)), r.Intn(len(hosts)), r.Intn(len(paths)),
-		r.Intn(8), r.Intn(8), r.Intn(8), r.Intn(8), r.Intn(8)}
+// ---- conditions and messages: small universes around the boundaries of the five matchers ----
+
+var (
+	uMethods  = []string{"GET", "POST", "PUT", "get", "Post", "pOsT", "", "DELETE", "GETT"}
+	uSchemes  = []string{"http", "https", "http", "https", "", "HTTP", "ftp"}
+	uHosts    = []string{"a.example", "b.example", "www.a.example", "a.example:8080", "x.y.a.example", "example", "localhost:80", "A.example", ""}
+	uPatterns = []string{"a.example", "b.example", "*.example", "*.a.example", "a.*", "*.*.example", "*", "*.example:8080", "a.example:8080", "*.y.a.example", "x.*.a.example", "*.*", "example", "a.exampl", ".example", "a*.example", "*a.example"}
+	uPaths    = []string{"/p1", "/p2", "/", "", "/p1/", "/P1", "/p1/p2"}
+	uQPieces  = []string{"k1=v1", "k1=v2", "k2=v1", "k2", "k1=", "=v1", "k%31=v1", "k1=v%31", "k1=v+1", "k+1=v1", "k;1=v1", "%zz=v1", "k1=%4", "k1=%", "k1=v1=x", "", "k1=v1;k2=v1", "K1=v1", "k1=%76%31", "%6b2=%76%31"}
+	uQNames   = []string{"k1", "k2", "k 1", "K1", "", "k;1", "k%31"}
+	uQValues  = []string{"", "v1", "v2", "v 1", "v1=x", "v%31"}
+	uHNames   = []string{"X-A", "x-a", "X-B", "x-B", "Content-Length", "content-length", "Host", "host", "Transfer-Encoding", "Cookie", "Set-Cookie", "X-a", "X_A"}
+	uHValues  = []string{"1", "2", "", "a b", "chunked", "5", "a.example", "gzip", "c1=v1", "1234"}
+	uCNames   = []string{"c1", "c2", "C1", "c3"}
+	uCValues  = []string{"v1", "v2", "", "V1"}
+	uCLs      = []int64{-1, 0, 0, 5, 1234}
+	uTEs      = [][]string{nil, nil, {}, {"chunked"}, {"gzip", "chunked"}}
+	uReqHosts = []string{"", "a.example", "a.example", "other.example", "a.example:8080"}
+)
+
+func pickS(r *core.Rand, xs []string) string { return xs[r.Intn(len(xs))] }
+
+var uPorts = []string{"80", "443", "8080", "8080", "0", "81"}
+
+func genCond(r *core.Rand) *condSpec {
+	if r.Chance(1, 16) {
+		return &condSpec{kind: 'p', a: pickS(r, uPorts)}
+	}
+	switch r.Intn(10) {
+	case 0, 1:
+		return &condSpec{kind: 'm', a: pickS(r, uMethods)}
+	case 2, 3, 4:
+		c := &condSpec{kind: 'u'}
+		// one to three constrained segments (rarely none or all)
+		for _, seg := range []struct {
+			dst  *string
+			pool []string
+		}{{&c.a, uSchemes}, {&c.b, uPatterns}, {&c.c, uPaths}, {&c.d, nil}} {
+			if r.Chance(2, 5) {
+				if seg.pool != nil {
+					*seg.dst = pickS(r, seg.pool)
+				} else {
+					*seg.dst = genRawQuery(r, 2)
+				}
+			}
+		}
+		return c
+	case 5, 6:
+		return &condSpec{kind: 'q', a: pickS(r, uQNames), b: pickS(r, uQValues)}
+	case 7, 8:
+		return &condSpec{kind: 'h', a: pickS(r, uHNames), b: pickS(r, uHValues)}
+	default:
+		return &condSpec{kind: 'c', a: pickS(r, uCNames), b: pickS(r, uCValues)}
+	}
 }
 
-func runOp(r *core.Rand, m *msgSpec) string {
-	k := r.Pick("q", "s")
-	return "run " + k + " " + m.String() + " " + intsToken(m.truths(k == "s"))
+func genRawQuery(r *core.Rand, max int) string {
+	n := r.Intn(max + 1)
+	var ps []string
+	for i := 0; i < n; i++ {
+		if r.Chance(2, 3) {
+			ps = append(ps, uQPieces[r.Intn(3)]) // the plain ones most of the time
+		} else {
+			ps = append(ps, pickS(r, uQPieces))
+		}
+	}
+	return strings.Join(ps, "&")
+}
+
+func genPairs(r *core.Rand, names, values []string, max int) [][2]string {
+	var out [][2]string
+	for i, n := 0, r.Intn(max+1); i < n; i++ {
+		out = append(out, [2]string{pickS(r, names), pickS(r, values)})
+	}
+	return out
+}
+
+// satisfy bends the message so that the condition holds for it (both kinds).
+func satisfy(r *core.Rand, c *condSpec, m *message) {
+	switch c.kind {
+	case 'm':
+		m.method = r.Pick(c.a, strings.ToLower(c.a), strings.ToUpper(c.a))
+	case 'u':
+		if c.a != "" {
+			m.scheme = c.a
+		}
+		if c.b != "" {
+			m.host = strings.ReplaceAll(c.b, "*", r.Pick("zz", "a", "www"))
+		}
+		if c.c != "" {
+			m.path = c.c
+		}
+		if c.d != "" {
+			m.rawQuery = c.d
+		}
+	case 'q':
+		piece := url.QueryEscape(c.a) + "=" + url.QueryEscape(r.Pick(c.b, c.b, "v1"))
+		if m.rawQuery == "" || r.Bool() {
+			m.rawQuery = piece
+		} else {
+			m.rawQuery = r.Pick(m.rawQuery+"&"+piece, piece+"&"+m.rawQuery)
+		}
+	case 'h':
+		switch http.CanonicalHeaderKey(c.a) {
+		case "Host":
+			m.reqHost = c.b
+		case "Content-Length":
+			if n, err := strconv.ParseInt(c.b, 10, 64); err == nil {
+				m.reqCL, m.resCL = n, n
+			}
+		case "Transfer-Encoding":
+			m.reqTE, m.resTE = append(m.reqTE[:len(m.reqTE):len(m.reqTE)], c.b), append(m.resTE[:len(m.resTE):len(m.resTE)], c.b)
+		case "Cookie", "Set-Cookie": // these lines carry the cookie lists; leave them alone
+		default:
+			kv := [2]string{r.Pick(c.a, strings.ToLower(c.a), strings.ToUpper(c.a)), c.b}
+			m.reqHdr, m.resHdr = append(m.reqHdr, kv), append(m.resHdr, kv)
+		}
+	case 'p':
+		if !hostPortOK("h:" + c.a) { // a port no URL can carry (negative, huge): nothing to bend
+			break
+		}
+		if i := strings.IndexByte(m.host, ':'); i >= 0 {
+			m.host = m.host[:i]
+		}
+		switch c.a {
+		case "80":
+			m.scheme = "http"
+		case "443":
+			m.scheme = "https"
+		default:
+			m.host += ":" + c.a
+		}
+	case 'c':
+		kv := [2]string{c.a, c.b}
+		if c.b == "" {
+			kv[1] = "v2"
+		}
+		if !validToken(kv[0]) || !validToken(kv[1]) || strings.ContainsAny(kv[0]+kv[1], "%&'*+!#$^`|~") { // keep to cookies net/http parses back as written
+			break
+		}
+		m.reqCk, m.resCk = append(m.reqCk, kv), append(m.resCk, kv)
+	}
+}
+
+// genMessage: a random exchange; half of the time bent towards one or two of the given conditions.
+func genMessage(r *core.Rand, conds ...*condSpec) *message {
+	m := &message{method: pickS(r, uMethods[:6]), scheme: pickS(r, uSchemes[:4]), host: pickS(r, uHosts), path: pickS(r, uPaths),
+		rawQuery: genRawQuery(r, 3), reqHost: pickS(r, uReqHosts), reqCL: uCLs[r.Intn(len(uCLs))], reqTE: uTEs[r.Intn(len(uTEs))],
+		resCL: uCLs[r.Intn(len(uCLs))], resTE: uTEs[r.Intn(len(uTEs))]}
+	plainH := []string{"X-A", "x-a", "X-B", "x-B", "X-a", "X_A", "Host", "Content-Length"}
+	m.reqHdr = genPairs(r, plainH, uHValues, 3)
+	m.resHdr = genPairs(r, plainH, uHValues, 3)
+	m.reqCk = genPairs(r, uCNames[:3], uCValues[:2], 2)
+	m.resCk = genPairs(r, uCNames[:3], uCValues[:2], 2)
+	if len(conds) > 0 && r.Bool() {
+		satisfy(r, conds[r.Intn(len(conds))], m)
+		if r.Chance(1, 3) {
+			satisfy(r, conds[r.Intn(len(conds))], m)
+		}
+		core.Count("msg:bent-towards-a-condition")
+	}
+	m.addCookieHeaders()
+	return m
+}
+
+func (n *node) conds() (out []*condSpec) {
+	n.walk(func(x *node) {
+		if x.kind == 'C' {
+			out = append(out, x.cond)
+		}
+	})
+	return
+}
+
+func randOver(r *core.Rand, alphabet string, max int) string {
+	b := make([]byte, r.Intn(max+1))
+	for i := range b {
+		b[i] = alphabet[r.Intn(len(alphabet))]
+	}
+	return string(b)
+}
+
+// matcherCase: the matchers one by one (model = code on every input; oracle where the statement fixes the meaning).
+func matcherCase(r *core.Rand) []string {
+	var ops []string
+	for i, n := 0, r.Range(6, 10); i < n; i++ {
+		switch r.Intn(8) {
+		case 0, 1, 2, 3:
+			c := genCond(r)
+			ops = append(ops, "cond "+r.Pick("q", "s")+" "+c.token()+" "+genMessage(r, c).token())
+		case 4: // a host pattern against hosts of the same family
+			h, p := pickS(r, uHosts), pickS(r, uPatterns)
+			ops = append(ops, "matchhost "+core.HexS(h)+" "+core.HexS(p))
+		case 5: // arbitrary short strings over the alphabet MatchHost branches on
+			ops = append(ops, "matchhost "+core.HexS(randOver(r, "ab.*:", 7))+" "+core.HexS(randOver(r, "ab.**:", 7)))
+		case 6:
+			ops = append(ops, "query "+core.HexS(genRawQuery(r, 5)))
+		default:
+			ops = append(ops, "query "+core.HexS(randOver(r, "kv1=&&;%+3zA ", 14)))
+		}
+	}
+	return ops
+}
+
+func runOp(r *core.Rand, m *message) string {
+	return "run " + r.Pick("q", "s") + " " + m.token()
 }
 
 func genCase(r *core.Rand, maxD, maxW int) []string {
@@ -162,7 +363,131 @@ func genCase(r *core.Rand, maxD, maxW int) []string {
 		ops = append(ops, "post "+t.String())
 		runs := r.Range(3, 6)
 		for j := 0; j < runs; j++ {
-			ops = append(ops, runOp(r, genMsg(r)))
+			ops = append(ops, runOp(r, genMessage(r, t.conds()...)))
+		}
+	}
+	return ops
+}
+
+// prioPattern: the priorities of a wide group: few distinct values in a mixed pattern (so that many
+// children tie and the ties are interleaved with other priorities), or all equal, or all distinct.
+func prioPattern(r *core.Rand, w int) []int64 {
+	ps := make([]int64, w)
+	kind := r.Intn(9)
+	k := int64(r.Range(2, 5))
+	blk := r.Range(2, 6)
+	base := int64(r.Pick2(0, 0))
+	if r.Chance(1, 6) {
+		base = int64(r.Pick2(-1000000, 1<<40))
+	}
+	for i := range ps {
+		switch kind {
+		case 0:
+			ps[i] = int64(i) % 2
+		case 1:
+			ps[i] = int64(i) % 3
+		case 2:
+			ps[i] = -(int64(i) % 4)
+		case 3:
+			ps[i] = int64(i) % k
+		case 4: // blocks of equal priorities, ascending or descending
+			ps[i] = int64(i / blk)
+			if k%2 == 0 {
+				ps[i] = -ps[i]
+			}
+		case 5: // random over a few values
+			ps[i] = int64(r.Intn(int(k))) - 1
+		case 6: // all equal
+			ps[i] = 7
+		case 7: // all distinct, shuffled below
+			ps[i] = int64(i)
+		default: // two interleaved runs: 0 1 0 1 ... with a rare high one
+			ps[i] = int64(i) % 2
+			if r.Chance(1, 8) {
+				ps[i] = 9
+			}
+		}
+		ps[i] += base
+	}
+	if kind == 7 {
+		for i := len(ps) - 1; i > 0; i-- {
+			j := r.Intn(i + 1)
+			ps[i], ps[j] = ps[j], ps[i]
+		}
+	}
+	core.Count("wide:prio-pattern-" + strconv.Itoa(kind))
+	return ps
+}
+
+// wideGroup: a fifo or priority group with many children (sorting networks, insertion-sort cut-offs
+// and similar width-dependent code paths only show beyond a dozen elements). Children are mostly
+// leaves that do not fail (so the whole run order is visible), of mixed capabilities (so the request
+// and the response order differ), with a few small subtrees.
+func (g *genState) wideGroup(w int) *node {
+	r := g.r
+	n := &node{kind: byte(r.Pick2('P', 'P')), scope: r.Pick("n", "n", "n", "N", "qs", "sq", "q", "s")}
+	if r.Chance(1, 3) {
+		n.kind = 'F'
+		n.agg = r.Bool()
+	}
+	failDen := r.Pick2(25, 1000)
+	for i := 0; i < w; i++ {
+		var c *node
+		switch r.Intn(12) {
+		case 0:
+			c = &node{kind: 'F', scope: "n", agg: r.Bool(), kids: []*node{g.quietLeaf(failDen), g.quietLeaf(failDen)}}
+		case 1:
+			c = &node{kind: 'C', cond: genCond(r), scope: "n", kids: []*node{g.quietLeaf(failDen)}}
+			if r.Bool() && c.cond.kind != 'p' {
+				c.els = g.quietLeaf(failDen)
+			}
+		case 2:
+			c = &node{kind: 'P', scope: "n", kids: []*node{g.quietLeaf(failDen), g.quietLeaf(failDen), g.quietLeaf(failDen)},
+				prios: []int64{int64(r.Intn(2)), int64(r.Intn(2)), int64(r.Intn(2))}}
+		default:
+			c = g.quietLeaf(failDen)
+		}
+		n.kids = append(n.kids, c)
+	}
+	if n.kind == 'P' {
+		n.prios = prioPattern(r, w)
+	}
+	return n
+}
+
+func (g *genState) quietLeaf(failDen int) *node {
+	n := g.leaf()
+	n.failReq = g.r.Chance(1, failDen)
+	n.failRes = g.r.Chance(1, failDen)
+	return n
+}
+
+// wideCase: one or two wide groups (at the root, or below a group/filter), each run on both kinds.
+func wideCase(r *core.Rand, maxW int) []string {
+	var ops []string
+	posts := r.Range(1, 2)
+	for i := 0; i < posts; i++ {
+		g := &genState{r: r, maxD: 2, maxW: 3}
+		w := r.Range(13, maxW)
+		if r.Chance(1, 5) {
+			w = r.Range(2, 13)
+		}
+		t := g.wideGroup(w)
+		core.Count("wide:width-" + strconv.Itoa(w/8*8) + "+")
+		switch r.Intn(6) {
+		case 0: // below a fifo group with siblings
+			t = &node{kind: 'F', scope: "n", agg: r.Bool(), kids: []*node{g.quietLeaf(1000), t, g.quietLeaf(1000)}}
+		case 1: // below a filter that holds for every message (url.Filter without segments)
+			t = &node{kind: 'C', cond: &condSpec{kind: 'u'}, scope: "n", kids: []*node{t}}
+		case 2: // two wide groups side by side in a priority group
+			t = &node{kind: 'P', scope: "n", kids: []*node{t, g.wideGroup(r.Range(13, maxW))}, prios: []int64{0, 0}}
+		}
+		if r.Chance(1, 10) {
+			t = defect(r, t)
+		}
+		ops = append(ops, "post "+t.String())
+		for _, k := range []string{"q", "s", r.Pick("q", "s")} {
+			ops = append(ops, "run "+k+" "+genMessage(r, t.conds()...).token())
 		}
 	}
 	return ops
@@ -172,7 +497,7 @@ func genCase(r *core.Rand, maxD, maxW int) []string {
 func scopeMatrix(emit func([]string)) {
 	scopes := []string{"n", "e", "q", "s", "qs", "x"}
 	caps := []byte{'b', 'q', 's'}
-	m := &msgSpec{}
+	m, _ := legacyMessage("0,0,0,0,0,0,0,0,0")
 	for _, kind := range []byte{'F', 'P'} {
 		for _, gs := range scopes {
 			for _, s1 := range scopes {
@@ -182,7 +507,7 @@ func scopeMatrix(emit func([]string)) {
 							kids:  []*node{{kind: 'L', label: 1, caps: c1, scope: s1, failReq: true}, {kind: 'L', label: 2, caps: 'b', scope: s2, failRes: true}},
 							prios: []int64{0, 0}}
 						emit([]string{"post L 0 b 0 0 n", "post " + n.String(),
-							"run q " + m.String() + " " + intsToken(m.truths(false)), "run s " + m.String() + " " + intsToken(m.truths(true))})
+							"run q " + m.token(), "run s " + m.token()})
 					}
 				}
 			}
@@ -196,7 +521,29 @@ func (P) Gen(r *core.Rand, tier string, emit func([]string)) {
 		n = 40000
 	}
 	scopeMatrix(emit)
+	races := 24
+	if tier == "thorough" {
+		races = 400
+	}
+	wide := n / 5
 	for i := 0; i < n; i++ {
+		if i == n/4 { // the concurrent tier, after enough sequential cases that a sequential defect is reported as such
+			rr := r.Fork()
+			for j := 0; j < races; j++ {
+				emit([]string{"race " + strconv.FormatUint(rr.U64()>>1, 10) + " " + strconv.Itoa(rr.Range(4, 12)) + " " + strconv.Itoa(rr.Range(2, 6)) + " " + strconv.Itoa(rr.Range(50, 300))})
+			}
+		}
+		if i%5 == 0 && i/5 < wide {
+			emit(wideCase(r.Fork(), 40))
+		}
 		emit(genCase(r, 5, 4))
+		if i%3 == 0 {
+			emit(matcherCase(r.Fork()))
+		}
+		if i%2 == 0 {
+			if c := jsonCase(r.Fork()); len(c) > 0 {
+				emit(c)
+			}
+		}
 	}
 }
